@@ -1,5 +1,6 @@
 import H4.Limits
 import H4.Driver.Util
+import H4.Gen.Fn.Hfiledd
 namespace H4.Driver
 open H4.Limits
 
@@ -148,7 +149,18 @@ def stepLimits (st : LimSt) (args : List String) : LimSt × String :=
     | none => bad
   | ["newref", m, kind, a, b, extra] =>
     match m.toNat?, usedSet kind a b, natList extra with
-    | some m, some u, some ex => (st, toString (newref m (fun r => u r || ex.contains r)).1)
+    | some m, some u, some ex =>
+      let x := newref m (fun r => u r || ex.contains r)
+      -- cross-run (function-level Tie A, C20 "no wrap-around"): `Hnewref` as TRANSLATED from hfiledd.c on the same `maxref` and in-use set;
+      -- `HTIfind_dd_ret[r]` = FAIL (-1) iff ref r is not in use (only consulted once `maxref` has reached 65535)
+      let tbl : List Int := if m < 65535 then [] else
+        let a := ex.foldl (fun (a : Array Int) r => if r < 65536 then a.set! r 0 else a)
+          ((Array.range 65536).map fun r => if u r then (0 : Int) else -1)
+        a.toList
+      let g := H4.Gen.Fn.Hfiledd.Hnewref 65535 0 false 1 m tbl
+      let gen := if g.ub then " GEN=ub" else if g.oof then " GEN=oof"
+        else if g.ret != (x.1 : Int) || g.file_rec_maxref != (x.2 : Int) then s!" GEN={g.ret},{g.file_rec_maxref}" else ""
+      (st, toString x.1 ++ gen)
     | _, _, _ => bad
   | ["refinit", m, runs] =>
     match m.toNat?, parseRuns runs with
